@@ -73,7 +73,11 @@ def scenario(cfg, pop_ops, ro_ops, use_model=True, root=None):
         # reopen read-only
         ro = sw.World(dict(kind="fs", separate=cfg.get("separate"), budget=cfg.get("budget"), mid_base=mid),
                       reuse_dirs=dirs)
-        ro.be = open_ro(cfg, dirs)
+        try:
+            ro.be = open_ro(cfg, dirs)
+        except Exception as e:          # a store that a writable backend reads must open read-only as well
+            res["fails"].append(dict(clause="reads-keep-working", step=0, op=["open-read-only"], error=repr(e)[:200], source=cfg["source"]))
+            return res
         if not ro.be.read_only:
             res["fails"].append(dict(clause="read-only-flag-honoured", source=cfg["source"]))
         oracle.ro = True
@@ -185,6 +189,11 @@ def function_level(chk, root):
             m.Environment.set(env_with(FilesystemStorageBackend(path=data), base=base))
             mfns.REC.calls.clear()
             assert mfns.ga(1) == 1 and mfns.gb(2) == [2, "gb"]
+            try:
+                mfns.gx(9)               # a memoized failure, below a caller that handles it
+            except ValueError:
+                pass
+            assert mfns.gcatch(9) == "caught"
             # read-only: memoized calls are served, others computed, nothing written
             # a leftover of a writer that died long ago (an old file in the staging directory): opening the store read-only
             # must not clean it up
@@ -235,6 +244,17 @@ def function_level(chk, root):
                         outs.append("forget-accepted")
                     except ValueError:
                         outs.append("ValueError")
+                    # forgetting the recorded failures beneath a call is a forget like any other
+                    # (for a memento that is not a failure nothing is to be done: returning normally is no acceptance)
+                    for what, counts in ((lambda: mfns.gcatch.memento(9), False), (lambda: mfns.gx.memento(9), True)):
+                        try:
+                            mm_ = what()
+                            if mm_ is not None:
+                                mm_.forget_exceptions_recursively()
+                                if counts:
+                                    outs.append("forget-exceptions-accepted")
+                        except ValueError:
+                            pass
                     # a result that is staged on disk while its body runs; the caller keeps it while the store is compared
                     staged = mfns.gp(5)
                     staged_ok = sorted(staged.list_keys()) == ["a", "b"] and staged.get("a") == [5, "a"]
@@ -454,10 +474,19 @@ def main(chk, replay=None):
             failures += 1
             chk.violation({"what": "read-only memory backend: %s at %s" % (mf[0]["clause"], mf[0]["op"]), "class": {"clause": mf[0]["clause"], "backend": "memory"},
                            "level": "memory", "populate": pop, "ops": ops, "observed": mf[:2]})
-    for i in range(n):
+    # stores that hold null results only (no data object was ever written: with a separate metadata path the data directory
+    # does not exist), and stores emptied by forget_everything
+    directed = [([["memoize", 1, 1, None, None], ["memoize", 4, 2, None, None]],
+                 [["lookread", 1, 1], ["getm", [[1, 1], [4, 2], [1, 2]]], ["ismem", 4, 2], ["lsf"], ["lsm", 1], ["memoize", 1, 2, None, 3], ["fcall", 1, 1], ["lookread", 1, 1]]),
+                ([["memoize", 1, 1, None, 3], ["fall"]],
+                 [["lookread", 1, 1], ["lsf"], ["ismem", 1, 1], ["memoize", 1, 1, None, 3], ["fall"], ["lsf"]])]
+    for i in range(n + len(directed) * len(RO_CONFIGS)):
         cfg = RO_CONFIGS[i % len(RO_CONFIGS)]
-        pop = sw.gen_ops(rng, rng.randint(3, 15), fns=[1, 2, 4, 5])
-        ops = sw.gen_ops(rng, rng.randint(4, 25 if quick else 50), fns=[1, 2, 4, 5])
+        if i < len(directed) * len(RO_CONFIGS):
+            pop, ops = directed[i // len(RO_CONFIGS)]
+        else:
+            pop = sw.gen_ops(rng, rng.randint(3, 15), fns=[1, 2, 4, 5])
+            ops = sw.gen_ops(rng, rng.randint(4, 25 if quick else 50), fns=[1, 2, 4, 5])
         res = scenario(cfg, pop, ops, use_model=proof_ok, root=chk.tmpdir())
         chk.case([cfg, pop, ops], nontrivial=any(o[0] in ("memoize", "fcall", "ffn", "fall", "wmeta") for o in ops),
                  sample=dict(config=cfg, populate=pop[:4], ops=ops[:6], answers=[t["real"] for t in res["transcript"][:6]]))
